@@ -115,9 +115,17 @@ class WatermarkPoolSink(PoolSink):
       self._current_size += 1
       self._varz.size(self._current_size)
       sink = self._sink_provider.CreateSink(self._properties)
-      # TODO: we could get a better failure case here by detecting that Open()
-      # failed and retrying, however for now the simplest option is to just fail.
-      sink.Open().wait()
+      try:
+        # get() re-raises if the sink could not be opened.
+        sink.Open().get()
+      except Exception as ex:
+        # The sink never became usable: give the slot back, let the caller
+        # (a request, or Open() on behalf of the resurrector) see the failure
+        # and report the endpoint as faulted, like any other sink failure.
+        self._current_size -= 1
+        self._varz.size(self._current_size)
+        self.__PropagateShutdown(ex)
+        raise
       sink.on_faulted.Subscribe(self.__PropagateShutdown)
       return sink
     else:
